@@ -4,17 +4,21 @@
 # demo fails. Then runs the given property checks against the patched worktree (VERIF_REPO) and
 # reports their exit codes. Leaves the worktree clean.
 set -u
+VERIF=$(cd "$(dirname "$0")/.." && pwd)
 WT=$1; SEED=$2; DEMO=$3; PKG=$4; shift 4
-export CARGO_TARGET_DIR=$WT/target CARGO_NET_OFFLINE=true
+export CARGO_TARGET_DIR=${SEED_TARGET_DIR:-$WT/target} CARGO_NET_OFFLINE=true
 cd $WT && git checkout -q -- . && rm -f $DEMO
 name=$(basename $DEMO .rs)
 cp $SEED/demo.rs $DEMO
 echo "== clean: demo"; cargo test -p $PKG --offline --test $name 2>&1 | grep -E "^test result|error" | head -3
 git apply $SEED/patch.diff || { echo "PATCH DOES NOT APPLY"; exit 1; }
-echo "== patched: demo"; cargo test -p $PKG --offline --test $name 2>&1 | grep -E "^test result|error(\[|:)" | head -3
+echo "== patched: demo"; cargo test -p $PKG --offline --test $name 2>&1 | grep -E "^test result|^error(\[|:)" | head -3
 rm -f $DEMO
 echo "== patched: existing suite"; cargo test --workspace --no-fail-fast --offline 2>&1 | grep -E "^test result" | awk '{p+=$4; f+=$6} END {print "passed",p,"failed",f}'
 for p in "$@"; do
-  echo "== check $p against patched tree"; (cd /verif && VERIF_REPO=$WT ./check $p 2>&1 | grep -E "^VIOLATION|^UNDECIDED|^KNOWN|^\[" | cut -c1-400)
+  echo "== check $p against patched tree"; (cd $VERIF && VERIF_REPO=$WT ./check $p 2>&1 | grep -E "^VIOLATION|^UNDECIDED|^KNOWN|^\[" | cut -c1-400)
 done
 cd $WT && git checkout -q -- .
+# remove the per-worktree build output of the verification tools (kani/bounded/replay crates and targets)
+tag=$(python3 -c "import hashlib,sys;print(hashlib.sha1(sys.argv[1].encode()).hexdigest()[:8])" $WT)
+rm -rf $VERIF/build/*_$tag
